@@ -493,7 +493,7 @@ def footer_read(F):
     def sym(x):
         if x.k == "call" and x.x["path"].endswith("::len") and x.a and is_self_field(x.a[0], "buffer"):
             return "len"
-        if x.k == "call" and x.x["path"].rsplit("::", 1)[-1] in ("from_be_bytes", "from_le_bytes", "from_ne_bytes") and "u32" in x.x["path"]:
+        if x.k == "call" and (int_conv(x.x.get("info") or {"path": x.x["path"]}) or ("", "", ""))[0] == "u32" and int_conv(x.x.get("info") or {"path": x.x["path"]})[2] == "read":
             return "count"
         if x.k == "call" and x.x["path"].endswith("::unwrap") and x.a and any(y.k == "fn" and "u32" in y.x["path"] and "bytes" in y.x["path"] for y in x.a[0].walk()):
             return "count"      # bytes.try_into().map(u32::from_be_bytes).unwrap()
@@ -511,21 +511,27 @@ def footer_read(F):
             if r is not None:
                 regs.append((lin_str(r[0]), lin_str(r[1])))
         return tuple(sorted(set(regs)))
-    um = [s for s, c, t in b.calls() if c and c["path"].rsplit("::", 1)[-1] in ("from_be_bytes", "from_le_bytes", "from_ne_bytes") and "u32" in c["path"]]
-    fnrefs = [x for s, c, t in b.calls() for a_ in b.arg_exprs(s) for x in a_.walk() if x.k == "fn" and "u32" in x.x["path"] and x.x["path"].rsplit("::", 1)[-1] in ("from_be_bytes", "from_le_bytes", "from_ne_bytes")]
+    def _is32(info):
+        cv = int_conv(info)
+        return cv is not None and cv[0] == "u32" and cv[2] == "read"
+    um = [s for s, c, t in b.calls() if c and _is32(c)]
+    fnrefs = [x for s, c, t in b.calls() for a_ in b.arg_exprs(s) for x in a_.walk() if x.k == "fn" and _is32(x.x.get("info") or {"path": x.x["path"]})]
     if um:
         s = um[0]
-        out["count"] = (callee_of(b.at(s))["path"].rsplit("impl ", 1)[-1], region_of(b.arg_exprs(s)[0]))
+        reg = region_of(b.arg_exprs(s)[-1])
+        # a slice reader (ByteOrder::read_u32(&buf[a..])) takes the first 4 bytes of the region it is given
+        reg = tuple((st, en) for st, en in reg)
+        out["count"] = (conv_name(callee_of(b.at(s))), reg)
     elif fnrefs:
         # bytes.try_into().map(u32::from_be_bytes)
         for s, c, t in b.calls():
             for a_ in b.arg_exprs(s):
                 if any(x is fnrefs[0] for x in a_.walk()):
-                    out["count"] = (fnrefs[0].x["path"].rsplit("impl ", 1)[-1], region_of(b.arg_exprs(s)[0]))
+                    out["count"] = (conv_name(fnrefs[0].x.get("info") or {"path": fnrefs[0].x["path"]}), region_of(b.arg_exprs(s)[0]))
     ext = [s for s, c, t in calls(b, "Extend<T>>::extend") if is_self_field(b.arg_exprs(s)[0], "index_offsets")]
     if ext:
         it = b.arg_exprs(ext[0])[1]
-        fns = [x.x["path"].rsplit("impl ", 1)[-1] for x in it.walk() if x.k == "fn" and "bytes" in x.x["path"]]
+        fns = [conv_name(x.x.get("info") or {"path": x.x["path"]}) for x in it.walk() if x.k == "fn" and int_conv(x.x.get("info") or {"path": x.x["path"]})]
         cx = [x for x in it.walk() if x.k == "call" and x.x["path"].endswith("chunks_exact")]
         names = [x.x["path"].rsplit("::", 1)[-1] for x in it.walk() if x.k == "call"]
         out["table"] = (tuple(fns), fold(cx[0].a[1]) if cx else None, "rev" in names, region_of(cx[0].a[0]) if cx else ())
@@ -606,59 +612,77 @@ def index_entry_values(F):
             if is_self_field(a[0], "block_writer"):
                 continue
             v = strip_casts(a[2]).strip()
-            w.append((p.split("::")[-1], v.x["path"].rsplit("impl ", 1)[-1] if v.k == "call" else v.show()[:40]))
+            w.append((p.split("::")[-1], (conv_name(v.x.get("info") or {"path": v.x["path"]}) or v.x["path"].rsplit("impl ", 1)[-1]) if v.k == "call" else v.show()[:40]))
     r = []
     for b in F.user_bodies():
         if not b.path.startswith("reader::reader_cursor"):
             continue
         for s, c, t in b.calls():
-            if c and c["path"].rsplit("::", 1)[-1] in ("from_be_bytes", "from_le_bytes", "from_ne_bytes"):
-                r.append((b.path.split("::")[-1], c["path"].rsplit("impl ", 1)[-1]))
+            cv = int_conv(c) if c else None
+            if cv and cv[2] == "read":
+                r.append((b.path.split("::")[-1], conv_name(c)))
             for a_ in t["args"]:
-                if a_.get("k") == "const" and "fn" in a_ and a_["fn"]["path"].rsplit("::", 1)[-1] in ("from_be_bytes", "from_le_bytes", "from_ne_bytes"):
-                    r.append((b.path.split("::")[-1], a_["fn"]["path"].rsplit("impl ", 1)[-1]))
+                if a_.get("k") == "const" and "fn" in a_:
+                    cv = int_conv(a_["fn"])
+                    if cv and cv[2] == "read":
+                        r.append((b.path.split("::")[-1], conv_name(a_["fn"])))
     return sorted(w), sorted(r)
 
 
+def int_conv(info):
+    """(integer type, endianness, 'read'|'write') of a bytes <-> integer conversion, whichever API spells it:
+    uN::from_be_bytes / to_le_bytes, byteorder's ByteOrder::read_uN on a slice, ReadBytesExt::read_uN::<E> on a stream"""
+    import re
+    if not info:
+        return None
+    p = info.get("path", "")
+    inst = info.get("inst", "") or ""
+    last = p.rsplit("::", 1)[-1]
+    m = re.match(r"(from|to)_(be|le|ne)_bytes$", last)
+    if m:
+        t = re.search(r"impl ([iu](?:8|16|32|64|128|size))>", p) or re.search(r"<([iu](?:8|16|32|64|128|size))>::", inst) or re.search(r"\b([iu](?:8|16|32|64|128|size))::", inst)
+        return (t.group(1) if t else "?", m.group(2).upper(), "read" if m.group(1) == "from" else "write")
+    m = re.match(r"(read|write)_([iu](?:16|24|32|48|64|128))(_into)?$", last)
+    if m and "byteorder" in p:
+        blob = inst + " " + " ".join(info.get("args", []))
+        e = "BE" if ("BigEndian" in blob or "NetworkEndian" in blob) else ("LE" if "LittleEndian" in blob else ("NE" if "NativeEndian" in blob else "?"))
+        return (m.group(2), e, m.group(1))
+    return None
+
+
+def conv_name(info):
+    c = int_conv(info)
+    return None if c is None else f"{c[0]} {c[1]}"
+
+
 def endianness_inventory(F):
-    """every multi-byte integer <-> bytes conversion in library code: (file, function, conversion)"""
+    """every multi-byte integer <-> bytes conversion in library code: (file, function, "<type> <BE|LE|NE> <read|write>")"""
     out = []
     for b in F.user_bodies():
         for s, c, t in b.calls():
-            if c is None:
-                continue
-            n = c["path"]
-            conv = None
-            last = n.rsplit("::", 1)[-1]
-            if last in ("to_be_bytes", "to_le_bytes", "to_ne_bytes", "from_be_bytes", "from_le_bytes", "from_ne_bytes"):
-                conv = last
-            elif n.startswith("byteorder::") and ("read_" in last or "write_" in last) and last not in ("read_u8", "write_u8", "read_i8", "write_i8"):
-                g = [x.rsplit("::", 1)[-1] for x in c["args"] if "Endian" in x]
-                conv = last + "::<" + (g[0] if g else "?") + ">"
-            if conv:
-                out.append((rel(b.file), b.path, conv))
+            if c is not None:
+                cv = int_conv(c)
+                if cv and cv[0] not in ("u8", "i8"):
+                    out.append((rel(b.file), b.path, " ".join(cv) + ("  _ne_bytes" if cv[1] == "NE" else "")))
+            for a in t["args"]:
+                if a.get("k") == "const" and "fn" in a:
+                    cv = int_conv(a["fn"])
+                    if cv:
+                        out.append((rel(b.file), b.path, " ".join(cv) + ("  _ne_bytes" if cv[1] == "NE" else "")))
         for s, st in b.sites():
             if s.i is not None and st["s"] == "assign":
                 def walk(o):
                     if isinstance(o, dict):
                         if o.get("k") == "const" and "fn" in o:
-                            p = o["fn"]["path"]
-                            last = p.rsplit("::", 1)[-1]
-                            if last in ("to_be_bytes", "to_le_bytes", "to_ne_bytes", "from_be_bytes", "from_le_bytes", "from_ne_bytes"):
-                                out.append((rel(b.file), b.path, last))
+                            cv = int_conv(o["fn"])
+                            if cv:
+                                out.append((rel(b.file), b.path, " ".join(cv) + ("  _ne_bytes" if cv[1] == "NE" else "")))
                         for v in o.values():
                             walk(v)
                     elif isinstance(o, list):
                         for v in o:
                             walk(v)
                 walk(st["rv"])
-        for s, c, t in b.calls():
-            for a in t["args"]:
-                if a.get("k") == "const" and "fn" in a:
-                    p = a["fn"]["path"]
-                    last = p.rsplit("::", 1)[-1]
-                    if last in ("to_be_bytes", "to_le_bytes", "to_ne_bytes", "from_be_bytes", "from_le_bytes", "from_ne_bytes"):
-                        out.append((rel(b.file), b.path, last))
     return sorted(set(out))
 
 
